@@ -843,7 +843,7 @@ int __wrap_pipe(int fds[2])
 	wr->p = p;
 	p->writers = 1;
 	/* lowest free descriptors like the kernel */
-	int a = 3;
+	int a = 0;
 	while (w.cur->fds.count(a))
 		a++;
 	w.cur->fds[a] = r;
@@ -1585,9 +1585,11 @@ void install_plan(const Plan &p, const Limits &lim)
 	auto t = std::make_unique<Proc>();
 	t->pid = 1;
 	t->prog = "tool";
-	auto in = std::make_shared<FdObj>();
-	in->kind = FdObj::STREAM;
-	t->fds[0] = in;
+	if (!p.ipar("stdin_closed", 0)) {
+		auto in = std::make_shared<FdObj>();
+		in->kind = FdObj::STREAM;
+		t->fds[0] = in;
+	}
 	for (int fd = 1; fd <= 2; fd++) {
 		auto o = std::make_shared<FdObj>();
 		o->kind = FdObj::REAL;
